@@ -197,6 +197,18 @@ CHECKS["C01"] = dict(
     note=NOTE_BASE + "Partial: the whole-history composition is validated by correspondence, not proved as one theorem. Known findings K2 (BLOB payload after a definition) and K1-C01 (messages above the 2048-character threshold).",
     technique="Coq proof (message-level sync theorems, partial) + system-level correspondence of the composed model with the real driver/router/transport/client stack",
     design="4/C01")
+CHECKS["C08"] = dict(
+    text="Theorems: payload_survives_the_text_encoding (base64, every byte string), published_blob_is_received_identically (client-side decode and "
+         "size check of exactly what the driver publishes), uploaded_blob_arrives_identically (driver-side decode of exactly what the client "
+         "library uploads), an_unset_blob_is_left_out, no_payload_without_enabling / a_blob_only_connection_carries_nothing_else (router policy), "
+         "blob_connection_frames_messages_of_any_length (framing theorem at threshold = None, any fragmentation), processing_always_ends (every "
+         "processing call terminates on any text, any threshold). REFUTED on threshold-enabled links: long_message_is_destroyed_refuted (known "
+         "finding K1). End to end - driver, router, server connection handlers, fragmented byte pipes, control and BLOB connection, client - "
+         "is the system model, VALIDATED against the real stack per operation, plus a model-free oracle (identical bytes/format/length at every "
+         "client that enabled BLOBs, nothing at the others, uploads identical at the driver, following traffic flows, no stall under a watchdog).",
+    note=NOTE_BASE + "Known finding K1: messages longer than the 2048-character threshold on threshold-enabled links (uploads above ~1.4 KB, BLOB updates to a control connection with Also) are destroyed.",
+    technique="Coq proof (payload codec, policy, framing without threshold, termination) + system-level correspondence and watchdog on the real BLOB paths in both directions",
+    design="4/C08")
 PENDING = {}
 props = [json.loads(l) for l in open(os.path.join(V, "properties.jsonl"))]
 checks, na = [], []
